@@ -2,6 +2,7 @@ package go_clipper2
 
 import (
 	"math"
+	"math/bits"
 )
 
 const (
@@ -14,9 +15,64 @@ const (
 	defaultMinimumEdgeLength = 0.1
 )
 
+// int128 is a signed 128-bit integer (two's complement, hi:lo). Products of two coordinate
+// differences need up to 126 bits within the advertised coordinate range (MaxCoord), so
+// they are formed exactly in 128 bits and converted to float64 once (exact sign, rounded
+// magnitude) instead of wrapping around in int64.
+type int128 struct {
+	hi int64
+	lo uint64
+}
+
+func mul64(a, b int64) int128 {
+	hi, lo := bits.Mul64(uint64(a), uint64(b))
+	if a < 0 {
+		hi -= uint64(b)
+	}
+	if b < 0 {
+		hi -= uint64(a)
+	}
+	return int128{int64(hi), lo}
+}
+
+func (x int128) add(y int128) int128 {
+	lo, c := bits.Add64(x.lo, y.lo, 0)
+	hi, _ := bits.Add64(uint64(x.hi), uint64(y.hi), c)
+	return int128{int64(hi), lo}
+}
+
+func (x int128) sub(y int128) int128 {
+	lo, b := bits.Sub64(x.lo, y.lo, 0)
+	hi, _ := bits.Sub64(uint64(x.hi), uint64(y.hi), b)
+	return int128{int64(hi), lo}
+}
+
+func (x int128) isZero() bool { return x.hi == 0 && x.lo == 0 }
+
+// fitsInt64 reports whether the value is representable as an int64 (and returns it)
+func (x int128) fitsInt64() (int64, bool) {
+	v := int64(x.lo)
+	return v, x.hi == v>>63
+}
+
+func (x int128) toFloat64() float64 {
+	if v, ok := x.fitsInt64(); ok {
+		return float64(v)
+	}
+	neg := x.hi < 0
+	if neg {
+		x = int128{}.sub(x)
+	}
+	f := float64(uint64(x.hi))*18446744073709551616.0 + float64(x.lo)
+	if neg {
+		return -f
+	}
+	return f
+}
+
 // CrossProduct for three Point64 (pt1->pt2 x pt2->pt3)
 func CrossProduct(pt1, pt2, pt3 Point64) float64 {
-	return float64((pt2.X-pt1.X)*(pt3.Y-pt2.Y) - (pt2.Y-pt1.Y)*(pt3.X-pt2.X))
+	return mul64(pt2.X-pt1.X, pt3.Y-pt2.Y).sub(mul64(pt2.Y-pt1.Y, pt3.X-pt2.X)).toFloat64()
 }
 
 func checkPrecision(precision int) {
@@ -92,7 +148,7 @@ func isCollinear(pt1, sharedPt, pt2 Point64) bool {
 }
 
 func dotProduct64(pt1, pt2, pt3 Point64) float64 {
-	return float64((pt2.X-pt1.X)*(pt3.X-pt2.X) + (pt2.Y-pt1.Y)*(pt3.Y-pt2.Y))
+	return mul64(pt2.X-pt1.X, pt3.X-pt2.X).add(mul64(pt2.Y-pt1.Y, pt3.Y-pt2.Y)).toFloat64()
 }
 
 func crossProductD(vec1, vec2 PointD) float64 {
@@ -121,13 +177,13 @@ func getSegmentIntersectPt(ln1a, ln1b, ln2a, ln2b Point64) (Point64, bool) {
 	dx1 := ln1b.X - ln1a.X
 	dy2 := ln2b.Y - ln2a.Y
 	dx2 := ln2b.X - ln2a.X
-	det := dy1*dx2 - dy2*dx1
+	det := mul64(dy1, dx2).sub(mul64(dy2, dx1))
 	var ip Point64
-	if det == 0 {
+	if det.isZero() {
 		return ip, false
 	}
 
-	t := float64(((ln1a.X-ln2a.X)*dy2)-((ln1a.Y-ln2a.Y)*dx2)) / float64(det)
+	t := mul64(ln1a.X-ln2a.X, dy2).sub(mul64(ln1a.Y-ln2a.Y, dx2)).toFloat64() / det.toFloat64()
 	if t <= 0 {
 		ip = ln1a
 	} else if t >= 1 {
